@@ -271,7 +271,7 @@ def fragment_types(res, rnd, n, broken_model, functions=False, stores=False):
             for tag, pat in (("for", r"\bfor \w+ in "), ("destructuring", r"\(\w+(, \w+)*\) := "), ("loop", r"\b(loop|while) "),
                              ("cell-write", r"\bc\w \S*= "), ("union-index", r"\bpua\["), ("union-tuple-access", r"\bput\.\d"),
                              ("union-deref", r"\*puc\b"), ("union-call", r"\bpu[fgm]\("), ("union-assign", r"\bpuc = "), ("collect", r"\$\]"), ("union-slice", r"\bpua\[[^\]]*:"), ("struct-literal", r"\bstruct\{"), ("field-access", r"\.[a-z]\b"),
-                             ("union-field-access", r"\bpsu\.a\b")):
+                             ("union-field-access", r"\bpsu\.a\b"), ("union-destructuring", r"\) := pu[qt]\b")):
                 if stores and re.search(pat, src):
                     res.count("%s:%s:with-%s" % (label, verdict, tag))
         if verdict == "unsup":
